@@ -173,7 +173,7 @@ def _run_unit(args):
         mod = importlib.import_module(modname)
         t0 = time.time()
         signal.signal(signal.SIGALRM, _alarm)
-        signal.alarm(int(getattr(mod, "UNIT_TIMEOUT", 300)))
+        signal.alarm(int(getattr(mod, "UNIT_TIMEOUT", 900)))
         try:
             res = mod.run_unit(unit)
         finally:
